@@ -183,6 +183,157 @@ fn structurally_consistent(s: &Snap) -> Option<String> {
     rep.first().map(|v| format!("L{} {}: {}", v.level, v.kind, v.detail))
 }
 
+/// (first violated kind, whether some facet is shared by more than two cells) of a loaded complex.
+/// The unchanged loader's neighbour rebuild refuses every over-shared facet, so `overshared=yes`
+/// never belongs to the recorded "no validation on load" finding.
+fn inconsistency_class(s: &Snap) -> String {
+    let mut rep = refval::Report::default();
+    refval::level1(s, &mut rep);
+    if rep.ok() {
+        refval::level2(s, &mut rep);
+    }
+    let first = rep.first().map_or("none", |v| v.kind);
+    let over = rep.violations.iter().any(|v| v.kind == "facet-overshared");
+    format!("kind={first}|overshared={}", if over { "yes" } else { "no" })
+}
+
+
+/// Layout-agnostic single-field corruptions: a value transplanted from elsewhere in the document
+/// (UUID over UUID, number over number), an array element duplicated / dropped / swapped, a value
+/// nulled - anywhere in the JSON tree. The label carries the top-level section it happened in.
+fn generic_json_corruptions(doc: &serde_json::Value, rng: &mut Rng, n: usize) -> Vec<(String, Vec<u8>)> {
+    use serde_json::Value;
+    #[derive(Clone)]
+    enum Step {
+        Key(String),
+        Idx(usize),
+    }
+    fn walk(v: &Value, path: &mut Vec<Step>, uuids: &mut Vec<Vec<Step>>, nums: &mut Vec<Vec<Step>>, arrays: &mut Vec<Vec<Step>>, leaves: &mut Vec<Vec<Step>>) {
+        match v {
+            Value::Object(o) => {
+                for (k, x) in o {
+                    path.push(Step::Key(k.clone()));
+                    walk(x, path, uuids, nums, arrays, leaves);
+                    path.pop();
+                }
+            }
+            Value::Array(a) => {
+                if !a.is_empty() {
+                    arrays.push(path.clone());
+                }
+                for (i, x) in a.iter().enumerate() {
+                    path.push(Step::Idx(i));
+                    walk(x, path, uuids, nums, arrays, leaves);
+                    path.pop();
+                }
+            }
+            Value::String(st) => {
+                if st.len() == 36 && st.as_bytes()[8] == b'-' {
+                    uuids.push(path.clone());
+                }
+                leaves.push(path.clone());
+            }
+            Value::Number(_) => {
+                nums.push(path.clone());
+                leaves.push(path.clone());
+            }
+            _ => leaves.push(path.clone()),
+        }
+    }
+    fn get<'a>(v: &'a Value, path: &[Step]) -> Option<&'a Value> {
+        let mut cur = v;
+        for s in path {
+            cur = match s {
+                Step::Key(k) => cur.get(k)?,
+                Step::Idx(i) => cur.get(*i)?,
+            };
+        }
+        Some(cur)
+    }
+    fn get_mut<'a>(v: &'a mut Value, path: &[Step]) -> Option<&'a mut Value> {
+        let mut cur = v;
+        for s in path {
+            cur = match s {
+                Step::Key(k) => cur.get_mut(k)?,
+                Step::Idx(i) => cur.get_mut(*i)?,
+            };
+        }
+        Some(cur)
+    }
+    let section = |path: &[Step]| -> String {
+        match path.first() {
+            Some(Step::Key(k)) => k.clone(),
+            _ => "root".into(),
+        }
+    };
+    let (mut uuids, mut nums, mut arrays, mut leaves) = (Vec::new(), Vec::new(), Vec::new(), Vec::new());
+    walk(doc, &mut Vec::new(), &mut uuids, &mut nums, &mut arrays, &mut leaves);
+    let mut out = Vec::new();
+    for _ in 0..n {
+        let mut d = doc.clone();
+        let label: String;
+        match rng.below(7) {
+            0 | 1 if uuids.len() >= 2 => {
+                let a = rng.pick(&uuids).clone();
+                let b = rng.pick(&uuids).clone();
+                let Some(vb) = get(doc, &b).cloned() else { continue };
+                label = format!("transplant-uuid@{}", section(&a));
+                if let Some(x) = get_mut(&mut d, &a) {
+                    *x = vb;
+                }
+            }
+            2 if nums.len() >= 2 => {
+                let a = rng.pick(&nums).clone();
+                let b = rng.pick(&nums).clone();
+                let Some(vb) = get(doc, &b).cloned() else { continue };
+                label = format!("transplant-number@{}", section(&a));
+                if let Some(x) = get_mut(&mut d, &a) {
+                    *x = vb;
+                }
+            }
+            3 | 4 if !arrays.is_empty() => {
+                let a = rng.pick(&arrays).clone();
+                let Some(Value::Array(arr)) = get_mut(&mut d, &a) else { continue };
+                let i = rng.usize_below(arr.len());
+                if rng.chance(1, 2) || arr.len() < 2 {
+                    label = format!("duplicate-array-element@{}", section(&a));
+                    let e = arr[i].clone();
+                    arr.insert(i, e);
+                } else {
+                    label = format!("overwrite-array-element-with-sibling@{}", section(&a));
+                    let j = (i + 1 + rng.usize_below(arr.len() - 1)) % arr.len();
+                    arr[j] = arr[i].clone();
+                }
+            }
+            5 if !arrays.is_empty() => {
+                let a = rng.pick(&arrays).clone();
+                let Some(Value::Array(arr)) = get_mut(&mut d, &a) else { continue };
+                let i = rng.usize_below(arr.len());
+                if arr.len() >= 2 && rng.chance(1, 2) {
+                    label = format!("swap-array-elements@{}", section(&a));
+                    let j = (i + 1 + rng.usize_below(arr.len() - 1)) % arr.len();
+                    arr.swap(i, j);
+                } else {
+                    label = format!("drop-array-element@{}", section(&a));
+                    arr.remove(i);
+                }
+            }
+            _ if !leaves.is_empty() => {
+                let a = rng.pick(&leaves).clone();
+                label = format!("null-value@{}", section(&a));
+                if let Some(x) = get_mut(&mut d, &a) {
+                    *x = Value::Null;
+                }
+            }
+            _ => continue,
+        }
+        if d != *doc {
+            out.push((label, serde_json::to_vec(&d).unwrap_or_default()));
+        }
+    }
+    out
+}
+
 /// JSON-level single-field corruptions of a document.
 fn json_corruptions(doc: &serde_json::Value, rng: &mut Rng, n: usize) -> Vec<(String, Vec<u8>)> {
     let mut out = Vec::new();
@@ -553,6 +704,7 @@ impl<K: SimKernel<D>, const D: usize> Monitor<K, D> for C13 {
         }
         if let Ok(doc) = serde_json::from_slice::<serde_json::Value>(&bytes) {
             corrupted.extend(json_corruptions(&doc, &mut rng, if self.thorough { 36 } else { 14 }));
+            corrupted.extend(generic_json_corruptions(&doc, &mut rng, if self.thorough { 40 } else { 16 }));
         }
         for (label, b) in corrupted {
             ctx.stats.evaluations += 1;
@@ -565,7 +717,7 @@ impl<K: SimKernel<D>, const D: usize> Monitor<K, D> for C13 {
                         fail(
                             ctx,
                             "structurally-inconsistent-document-loaded",
-                            format!("corruption={label}"),
+                            format!("corruption={label}|{}", inconsistency_class(&ts)),
                             format!("a document with corruption '{label}' was loaded instead of rejected; the resulting complex is structurally inconsistent: {why}; library Tds::is_valid() = {:?}", t.tds().is_valid().map_err(|e| e.to_string())),
                         );
                     }
